@@ -5,7 +5,7 @@
    The model follows the repaired tree (fix-mc: dee7ba4 mc_stddev divides by sqrt(shape[0]);
    f813372 every control is centred on its own price; fix-mc3 aaa3e1f scale-relative degenerate-control guard). *)
 From Coq Require Import List ZArith QArith Qabs Bool Lia Permutation.
-From RV Require Import Base.QB Model.McStats Model.McCv Proofs.C07_StatsLemmas Proofs.C07_McStats Proofs.C07_CvGeneral Model.McStdFull Proofs.C07_StdFull.
+From RV Require Import Base.QB Model.McStats Model.McCv Proofs.C07_StatsLemmas Proofs.C07_McStats Proofs.C07_CvGeneral Model.McStdFull Proofs.C07_StdFull Proofs.C07_LstsqExists Model.McStdCv Proofs.C07_MpCv.
 Import ListNotations.
 Open Scope Q_scope.
 
@@ -111,6 +111,21 @@ Theorem C07_cv_code_b_any_k :
         /\ (forall b', code_b n k b' X Y -> forall j, (j < k)%nat -> nth j b 0 == nth j b' 0)).
 Proof. exact cv_code_b_general. Qed.
 
+(* EXISTENCE of lstsq's answer, any number k of controls, collinear or not: when every control has positive sample variance
+   there are b and a certificate w meeting the specification (Sigma b = Sigma_XY, diag(Sigma) b = Sigma w).  Proof: Gram-Schmidt
+   for an abstract positive semi-definite form, instantiated with <u,v> = sum_l u_l v_l / Sigma_ll on the columns of Sigma_X. *)
+Theorem C07_lstsq_answer_exists :
+  forall n, (0 < n)%nat -> forall X Y k, (forall j, (j < k)%nat -> 0 < Cn n (X j) (X j)) ->
+    exists b w, length b = k /\ lstsq_spec n b w X Y.
+Proof. exact lstsq_spec_exists. Qed.
+
+(* hence: for EVERY sample and every k the specification of helper_compute_coefficients (guard -> 0, else lstsq) is met by
+   exactly one coefficient vector -- "the b* of the code" is well defined without looking at a particular run *)
+Theorem C07_code_b_exists_unique :
+  forall n k X Y, (0 < n)%nat ->
+    exists b, code_b n k b X Y /\ forall b', code_b n k b' X Y -> forall j, (j < k)%nat -> nth j b 0 == nth j b' 0.
+Proof. exact code_b_exists_unique. Qed.
+
 (* the boolean check the vm_compute correspondence evaluates on every replayed run implies code_b *)
 Theorem C07_code_b_check_sound : forall n k b w X Y, code_bb n k b w X Y = true -> code_b n k b X Y.
 Proof. exact code_bb_sound. Qed.
@@ -126,6 +141,20 @@ Example C07_three_collinear_controls :
           (cv_adj [441 # 1240; 861 # 1240; -21 # 124] (fun _ => 0) (tabX ex_xs) (tabY ex_y)) < Cn 5 (tabY ex_y) (tabY ex_y).
 Proof. split; [vm_compute; reflexivity|]. split; [|vm_compute; reflexivity].
   intros j Hj. destruct j as [|[|[|j]]]; [vm_compute; reflexivity..|]. exfalso. lia. Qed.
+
+(* non-vacuity of C07_lstsq_answer_exists / C07_code_b_exists_unique on the same singular sample: no control is degenerate
+   (all three variances positive), so the unique b of the theorem is the vector above *)
+Example C07_collinear_sample_has_unique_b :
+  any_degenerate 5 3 (tabX ex_xs) = false
+  /\ (forall j, (j < 3)%nat -> 0 < Cn 5 (tabX ex_xs j) (tabX ex_xs j))
+  /\ (forall b', code_b 5 3 b' (tabX ex_xs) (tabY ex_y) -> forall j, (j < 3)%nat -> nth j [441 # 1240; 861 # 1240; -21 # 124] 0 == nth j b' 0).
+Proof. split; [vm_compute; reflexivity|]. split.
+  - intros j Hj. destruct j as [|[|[|j]]]; [vm_compute; reflexivity..|]. exfalso. lia.
+  - assert (Hc : code_b 5 3 [441 # 1240; 861 # 1240; -21 # 124] (tabX ex_xs) (tabY ex_y)).
+    { apply (code_bb_sound 5 3 _ [-29631 # 62000; 83139 # 62000; 0]). vm_compute. reflexivity. }
+    assert (H5 : (0 < 5)%nat) by lia.
+    assert (G : any_degenerate 5 3 (tabX ex_xs) = false) by (vm_compute; reflexivity).
+    exact (proj2 (proj2 (cv_code_b_general 5 3 _ (fun _ => 0) (tabX ex_xs) (tabY ex_y) H5 Hc) G)). Qed.
 
 (* ------------------------------------------------------------------ both branches of the loop, spot statistics, n = 0 / 1, get_variance
    (Model/McStdFull.v) *)
@@ -203,6 +232,42 @@ Proof. split; [vm_compute; reflexivity|]. split; [vm_compute; reflexivity|]. spl
     apply perm_skip. apply perm_swap.
   - split; [vm_compute; reflexivity|]. split; vm_compute; reflexivity. Qed.
 
+(* ------------------------------------------------------------------ control variates in both branches of the loop (Model/McStdCv.v) *)
+(* MCStatistics.add stores the payoff row and the control rows of the path the path manager holds at the same index: for ALL
+   delivery orders / chunkings / repetitions, every assignment sigma and every np.empty content, row `it` of the payoff table and
+   row `it` of the control table belong to the SAME draw sigma it *)
+Theorem C07_cv_tables_any_order :
+  forall (ycol : nat -> Q) (crow : nat -> list Q) its sigma gy gx n,
+    length gy = n -> length gx = n -> Forall (fun it => (it < n)%nat) its -> (forall k, (k < n)%nat -> In k its) ->
+    mpcv_engine ycol crow its sigma gy gx
+    = (map (fun it => ycol (sigma it)) (seq 0 n), map (fun it => crow (sigma it)) (seq 0 n)).
+Proof. exact mpcv_merge_any_order. Qed.
+
+(* if the pool hands every draw to exactly one index, a coefficient vector meeting the code's specification on the multi-process
+   tables meets it on the single-process tables, and the control-variate price and sample variance are the same numbers *)
+Theorem C07_cv_multiprocess_same :
+  forall n, (0 < n)%nat -> forall sigma, Permutation (map sigma (seq 0 n)) (seq 0 n) ->
+  forall X Y k b p, code_b n k b (permX sigma X) (permY sigma Y) ->
+    code_b n k b X Y
+    /\ En n (cv_adj b p (permX sigma X) (permY sigma Y)) == En n (cv_adj b p X Y)
+    /\ Cn n (cv_adj b p (permX sigma X) (permY sigma Y)) (cv_adj b p (permX sigma X) (permY sigma Y))
+       == Cn n (cv_adj b p X Y) (cv_adj b p X Y).
+Proof. exact cv_multiprocess_same. Qed.
+Theorem C07_cv_multiprocess_same_b :
+  forall n k sigma X Y b b1, (0 < n)%nat -> Permutation (map sigma (seq 0 n)) (seq 0 n) ->
+    code_b n k b (permX sigma X) (permY sigma Y) -> code_b n k b1 X Y -> any_degenerate n k X = false ->
+    forall j, (j < k)%nat -> nth j b 0 == nth j b1 0.
+Proof. exact cv_multiprocess_same_b. Qed.
+
+(* non-vacuity: the collinear five-path sample above, handed out by a pool as sigma = (2,0,4,1,3), results delivered in the order
+   3,0,4,1,2,0: the tables are the permuted sample, and the SAME b meets the specification on them *)
+Example C07_cv_three_process_run :
+  let sg := fun it => nth it [2; 0; 4; 1; 3]%nat 0%nat in
+  mpcv_engine (tabY ex_y) (fun dr => nth dr ex_xs []) [3; 0; 4; 1; 2; 0]%nat sg (repeat (9 # 7) 5) (repeat [9 # 7; 9 # 7; 9 # 7] 5)
+    = ([1; 0; 4; 0; 2], [[3; 0; 0]; [1; 0; 2]; [6; 3; 0]; [2; 0; 1]; [4; 1; 0]])
+  /\ code_bb 5 3 [441 # 1240; 861 # 1240; -21 # 124] [-29631 # 62000; 83139 # 62000; 0] (permX sg (tabX ex_xs)) (permY sg (tabY ex_y)) = true.
+Proof. split; vm_compute; reflexivity. Qed.
+
 (* non-vacuity / behaviour before the repair of mc_stddev (F-C07-1): two paths, two components *)
 Example C07_error_vector_before_repair :
   let rows := [[0; 0]; [2; 2]] in
@@ -222,12 +287,19 @@ Print Assumptions C07_cv_optimal_any_k.
 Print Assumptions C07_normal_equations_solvable.
 Print Assumptions C07_lstsq_spec_unique.
 Print Assumptions C07_cv_code_b_any_k.
+Print Assumptions C07_lstsq_answer_exists.
+Print Assumptions C07_code_b_exists_unique.
 Print Assumptions C07_code_b_check_sound.
 Print Assumptions C07_three_collinear_controls.
+Print Assumptions C07_collinear_sample_has_unique_b.
 Print Assumptions C07_merge_any_order.
 Print Assumptions C07_multiprocess_same_statistics.
 Print Assumptions C07_statistics_permutation_invariant.
 Print Assumptions C07_engine_small_n.
 Print Assumptions C07_get_variance_textbook.
 Print Assumptions C07_two_process_run.
+Print Assumptions C07_cv_tables_any_order.
+Print Assumptions C07_cv_multiprocess_same.
+Print Assumptions C07_cv_multiprocess_same_b.
+Print Assumptions C07_cv_three_process_run.
 Print Assumptions C07_error_vector_before_repair.
